@@ -83,6 +83,9 @@ func genDecls(r *Rng) []aDecl {
 	}
 	mkValue := func() aDecl {
 		num := fmt.Sprint(r.Intn(70000))
+		if r.Intn(6) == 0 {
+			num = "0" + num // leading zeros are decimal, not octal
+		}
 		if r.Intn(3) == 0 {
 			num = fmt.Sprintf("0x%x", r.Intn(1<<20))
 			if r.Bool() {
@@ -232,7 +235,7 @@ func init() {
 				}
 				if toks[0] == "VALUE" {
 					v := append([]string{}, toks...)
-					v[3] = r.PickS("0x", "0xZZ", "-1", "12a", "4294967296", "0x100000000", "+5")
+					v[3] = r.PickS("0x", "0xZZ", "-1", "12a", "4294967296", "0x100000000", "+5", "010", "09", "0X1F", "0b101", "0o17", "1_000", "0x1_0", "00", "0x", "1e3", "٣")
 					muts = append(muts, strings.Join(v, " "))
 				}
 				if toks[0] == "VENDOR" {
@@ -273,6 +276,39 @@ func init() {
 			c.Add(Case{Req: dc.req(), Impl: t.String(), Tag: "identical-attributes", NoSpec: true})
 		}
 		c.Trivial("dict-rejected")
+		// VALUE numerals, decided by the statement itself (decimal or 0x-hex, 32 bits): a two-line dictionary per numeral
+		type numeral struct {
+			text string
+			ok   bool
+			val  uint64
+		}
+		for _, nm := range []numeral{{"0", true, 0}, {"7", true, 7}, {"010", true, 10}, {"09", true, 9}, {"007", true, 7}, {"4294967295", true, 4294967295},
+			{"4294967296", false, 0}, {"0x1f", true, 31}, {"0x1F", true, 31}, {"0xffffffff", true, 4294967295}, {"0x100000000", false, 0}, {"0x", false, 0},
+			{"0b101", false, 0}, {"0o17", false, 0}, {"1_000", false, 0}, {"0x1_0", false, 0}, {"1e3", false, 0}, {"-1", false, 0}, {"+5", false, 0}, {"12a", false, 0}, {"", false, 0}} {
+			text := "ATTRIBUTE A 1 integer\nVALUE A v " + nm.text + "\n"
+			d, err := (&dictionary.Parser{Opener: &memOpener{files: map[string]memEntry{"d": {"d", text}}, limit: 4}}).ParseFile("d")
+			switch {
+			case nm.ok && (err != nil || len(d.Values) != 1 || d.Values[0].Number != nm.val):
+				c.Fail("spec", "Parser.ParseFile", "numeral", text, fmt.Sprintf("%v %v", d, err), fmt.Sprintf("VALUE number %d", nm.val), "VALUE numbers are decimal or 0x-hex")
+			case !nm.ok && err == nil && nm.text != "":
+				c.Fail("spec", "Parser.ParseFile", "numeral", text, fmt.Sprintf("accepted as %d", d.Values[0].Number), "rejected", "non-numeric numbers are rejected")
+			}
+			c.Count("numeral", nm.text)
+		}
+		// flag lists, decided by the statement itself: any order, no repetition
+		for _, fl := range []struct {
+			text string
+			ok   bool
+		}{{"has_tag", true}, {"concat", true}, {"encrypt=1", true}, {"has_tag,concat", true}, {"concat,has_tag", true}, {"encrypt=2,has_tag", true}, {"has_tag,encrypt=2", true},
+			{"concat,encrypt=1,has_tag", true}, {"has_tag,has_tag", false}, {"concat,concat", false}, {"encrypt=1,encrypt=1", false}, {"encrypt=1,encrypt=2", false},
+			{"has_tag,concat,has_tag", false}, {"concat,has_tag,concat", false}, {"bogus", false}, {"has_tag,bogus", false}, {"encrypt=", false}, {"encrypt=x", false}} {
+			text := "ATTRIBUTE A 1 octets " + fl.text + "\n"
+			_, err := (&dictionary.Parser{Opener: &memOpener{files: map[string]memEntry{"d": {"d", text}}, limit: 4}}).ParseFile("d")
+			if fl.ok != (err == nil) {
+				c.Fail("spec", "Parser.ParseFile", "flags", text, fmt.Sprint(err), map[bool]string{true: "accepted", false: "rejected"}[fl.ok], "flags in any order are accepted; unknown and repeated flags are rejected")
+			}
+			c.Count("flags", fl.text)
+		}
 		c.Flush()
 		c.RequireTags("dict-ok", "dict-ok-vendorblock", "layout", "mutation-rejected", "mutation-accepted", "identical-attributes")
 	}
